@@ -374,3 +374,15 @@ def run(program, rep, tier):
                      'world it enters: its deferred events are never released')
     rep.floor('C04.loop-release', 'SimpleLoop.switch release site', len(got),
               1)
+    # ... and the world it enables is the one the loop goes on processing
+    # (C13.current: the adopted world is taken from the handle after the
+    # clears of the switch)
+
+    def _adoption(program, rep):
+        f_, spaths, _bad = c13.analyse_switch_fn(program, rep)
+        c13.same_instance(program, rep, f_, spaths)
+    rep.borrow(_adoption, program, rep,
+               keep=lambda o: o.rule == 'C13.current',
+               rename=lambda r: 'C04.loop-release',
+               why='the world the loop keeps processing is not the one it '
+               'enabled: the events deferred on it are never released')
